@@ -16,6 +16,7 @@ type GenParams struct {
 	KV         bool
 	StorFaults bool // arm storage faults on some steps
 	ReorgMotif bool // append the shared-transaction reorganisation motif to some plans
+	CatchUpMotif bool // append the multi-block catch-up motif to some plans
 	MapOrders  bool
 	SmallCache bool
 	Defer      bool
@@ -149,6 +150,22 @@ func GenChainPlan(rt *rapid.T, p *GenParams) *ChainPlan {
 				pl.Steps = append(pl.Steps, CStep{Op: "deliver", N: 1, Flag: true, Via: 1})
 			}
 		}
+	}
+	// catch-up motif: another node gets several blocks ahead, node 0 stores them one by one and then
+	// walks its state machine over all of them in one Walk (one storage batch per block: the crash
+	// points between them are the interesting ones).
+	if p.CatchUpMotif && pl.Nodes >= 2 && rapid.IntRange(0, 2).Draw(rt, "catchup") == 2 {
+		k := rapid.IntRange(2, 3).Draw(rt, "catchupblocks")
+		if rapid.Bool().Draw(rt, "catchuptx") {
+			pl.Steps = append(pl.Steps, CStep{Op: "tx", N: 1, Via: 2, Amt: rapid.IntRange(0, 4).Draw(rt, "catchupamt")})
+		}
+		for i := 0; i < k; i++ {
+			pl.Steps = append(pl.Steps, CStep{Op: "mine", N: 1, A: 1})
+		}
+		for i := 0; i < k-1; i++ {
+			pl.Steps = append(pl.Steps, CStep{Op: "deliver", N: 0, Flag: true, Via: 1})
+		}
+		pl.Steps = append(pl.Steps, CStep{Op: "deliver", N: 0, Flag: true, Via: 2})
 	}
 	// fault-then-recover motif (drawn last so that earlier draws are unchanged): a pending write of a
 	// key, an own block whose confirmation or play hits a write error, a walk that rolls the pool back
